@@ -8,26 +8,36 @@ import Gmx.Driver.Util
 `rbuf new <sid> <now>` · `begin|commit|abandon <sid>` · `setrev <sid> <rev>` (test set-up, only
 upwards and outside an operation) · reads `rpool <sid> <k>`, `rclock <sid> <i> <now>`, `rother <sid>` ·
 writes `wpool <sid> <k> <L|S> <delta>`, `wclock <sid> <i> <now>`, `wffps <sid> <v>`,
-`wbal <sid> <L|S> <in|out> <amount>`.  Responses end with `| <digest>` (counter, open flag, all
-stored payloads). -/
+`wbal <sid> <L|S> <in|out> <amount>`; operations may be opened as a liquidity market (`lbegin`:
+`mint <a>`, `burn <a>`, `supply`) or as a position (`pbegin`: `pread`, `pwrite <i> <v>`,
+`ptouch <inc|dec> <slot> <now>`); the virtual inventory has its own buffer (`vbegin|vcommit|vabandon`,
+`vread`, `vwrite <L|S> <d>`, `vsetrev <rev>`).  Responses end with `| <digest>` (counter, open mode,
+all stored payloads, mint supply, stored position, virtual inventory). -/
 namespace Gmx.Drv
 open Gmx.Rev
 
 structure RbufSt where
   m : M (List Int)
-  isOpen : Bool
+  /-- 0 closed · 1 market · 2 liquidity market · 3 position -/
+  mode : Nat := 0
+  lm : LM := ⟨1000000, 0, 0⟩
+  pos : PB (List Int) := ⟨[0, 0, 0, 0, 0, 0, 0, 0, 0, 0, 0], [0, 0, 0, 0, 0, 0, 0, 0, 0, 0, 0]⟩
+  vi : VI (List Int) := ⟨0, ⟨0, [0, 0]⟩, ⟨0, [0, 0]⟩⟩
+  viOpen : Bool := false
+
+def RbufSt.isOpen (s : RbufSt) : Bool := s.mode != 0
 
 abbrev RbufDb := List (String × RbufSt)
 
 def rbufInit (now : Int) : M (List Int) :=
-  ⟨1, fun k => ⟨0, if k < 16 then [0, 0] else [0, 0, 0]⟩,
-      fun k => ⟨0, if k < 16 then [0, 0] else if k = 16 then [now, now, now] else [0, 0, 0]⟩⟩
+  ⟨1, fun k => ⟨0, if k < 16 then [0, 0] else [0, 0, 0, 0]⟩,
+      fun k => ⟨0, if k < 16 then [0, 0] else if k = 16 then [now, now, now] else [0, 0, 0, 0]⟩⟩
 
 def showInts (v : List Int) : String := ",".intercalate (v.map toString)
 
 def rbufDigest (s : RbufSt) : String :=
   let cells := (List.range 18).map (fun k => showInts (s.m.store k).val)
-  s!"rev={s.m.rev} open={showBool s.isOpen} [{";".intercalate cells}]"
+  s!"rev={s.m.rev} open={s.mode} [{";".intercalate cells}] supply={s.lm.supply} pos={showInts s.pos.stored} vi={s.vi.rev}:{showBool s.viOpen}:{showInts s.vi.store.val}"
 
 def rbufGet (db : RbufDb) (sid : String) : Option RbufSt :=
   match db with
@@ -57,13 +67,16 @@ def balMove (i : Nat) (isIn : Bool) (amt : Int) (v : List Int) : List Int :=
   let n := if isIn then v.getD i 0 + amt else v.getD i 0 - amt
   if 0 ≤ n ∧ n < 2 ^ 64 then v.set i n else v
 
+def showCpis (c : List Cpi) : String :=
+  if c.isEmpty then "-" else ",".intercalate (c.map (fun x => match x with | .mintTo a => s!"M{a}" | .burn a => s!"B{a}"))
+
 def sideIx (s : String) : Option Nat := if s = "L" then some 0 else if s = "S" then some 1 else none
 
 def rbufEngine (db : RbufDb) (args : List String) : RbufDb × String :=
   match args with
   | ["new", sid, now] =>
     match pInt now with
-    | some now => rbufOut db sid ⟨rbufInit now, false⟩ "ok"
+    | some now => rbufOut db sid { m := rbufInit now } "ok"
     | none => (db, "bad-op")
   | op :: sid :: rest =>
     match rbufGet db sid with
@@ -74,16 +87,96 @@ def rbufEngine (db : RbufDb) (args : List String) : RbufDb × String :=
         if s.isOpen then (db, "bad-op") else
         match begin 64 s.m with
         | none => rbufOut db sid s "panic"
-        | some m1 => rbufOut db sid ⟨m1, true⟩ s!"ok {m1.rev}"
+        | some m1 => rbufOut db sid { s with m := m1, mode := 1 } s!"ok {m1.rev}"
+      | "lbegin", [] =>
+        if s.isOpen then (db, "bad-op") else
+        match begin 64 s.m with
+        | none => rbufOut db sid s "panic"
+        | some m1 => rbufOut db sid { s with m := m1, mode := 2, lm := lmBegin s.lm.supply } s!"ok {m1.rev}"
+      | "pbegin", [] =>
+        if s.isOpen then (db, "bad-op") else
+        match begin 64 s.m with
+        | none => rbufOut db sid s "panic"
+        | some m1 => rbufOut db sid { s with m := m1, mode := 3, pos := pbBegin s.pos } s!"ok {m1.rev}"
       | "commit", [] =>
-        if !s.isOpen then (db, "bad-op") else rbufOut db sid ⟨commit s.m, false⟩ "ok"
+        if !s.isOpen then (db, "bad-op") else
+        if s.mode = 2 then
+          rbufOut db sid { s with m := commit s.m, mode := 0, lm := ⟨lmCommitSupply s.lm, 0, 0⟩ }
+            s!"ok cpis={showCpis (lmCommitCpis s.lm)}"
+        else if s.mode = 3 then
+          rbufOut db sid { s with m := commit s.m, mode := 0, pos := pbCommit s.pos } "ok cpis=-"
+        else rbufOut db sid { s with m := commit s.m, mode := 0 } "ok cpis=-"
       | "abandon", [] =>
-        if !s.isOpen then (db, "bad-op") else rbufOut db sid ⟨s.m, false⟩ "ok"
+        if !s.isOpen then (db, "bad-op") else rbufOut db sid { s with mode := 0 } "ok cpis=-"
+      | "mint", [a] =>
+        match pNat a with
+        | some a =>
+          if s.mode ≠ 2 ∨ a ≥ 2 ^ 128 then (db, "bad-op") else
+          match lmMint s.lm a with
+          | some l => rbufOut db sid { s with lm := l } "ok"
+          | none => rbufOut db sid s "err"
+        | none => (db, "bad-op")
+      | "burn", [a] =>
+        match pNat a with
+        | some a =>
+          if s.mode ≠ 2 ∨ a ≥ 2 ^ 128 then (db, "bad-op") else
+          match lmBurn s.lm a with
+          | some l => rbufOut db sid { s with lm := l } "ok"
+          | none => rbufOut db sid s "err"
+        | none => (db, "bad-op")
+      | "supply", [] =>
+        if s.mode ≠ 2 then (db, "bad-op") else rbufOut db sid s s!"ok {lmTotalSupply s.lm}"
+      | "pread", [] =>
+        if s.mode ≠ 3 then (db, "bad-op")
+        else rbufOut db sid s s!"ok {joinSp (((pbRead s.pos).drop 4).map toString)}"
+      | "pwrite", [i, v] =>
+        match pNat i, pNat v with
+        | some i, some v =>
+          if s.mode ≠ 3 ∨ i < 4 ∨ i > 10 ∨ v ≥ 2 ^ 126 then (db, "bad-op")
+          else rbufOut db sid { s with pos := pbWrite s.pos (fun x => x.set i (v : Int)) } "ok"
+        | _, _ => (db, "bad-op")
+      | "ptouch", [kind, slot, now] =>
+        match pNat slot, pInt now with
+        | some slot, some now =>
+          if s.mode ≠ 3 ∨ (kind ≠ "inc" ∧ kind ≠ "dec") then (db, "bad-op") else
+          -- `next_trade_id`: STORED trade count + 1, written to the buffered other state
+          let tid := (s.m.store 17).val.getD 3 0 + 1
+          let m' := write s.m 17 (fun x => x.set 3 tid)
+          let f : List Int → List Int := fun x =>
+            let x := (x.set 0 tid).set 2 (slot : Int)
+            if kind = "inc" then x.set 1 now else x.set 3 now
+          rbufOut db sid { s with m := m', pos := pbWrite s.pos f } "ok"
+        | _, _ => (db, "bad-op")
+      | "vbegin", [] =>
+        if s.viOpen then (db, "bad-op") else
+        match viBegin 64 s.vi with
+        | none => rbufOut db sid s "panic"
+        | some v => rbufOut db sid { s with vi := v, viOpen := true } "ok"
+      | "vcommit", [] =>
+        if !s.viOpen then (db, "bad-op") else rbufOut db sid { s with vi := viCommit s.vi, viOpen := false } "ok"
+      | "vabandon", [] =>
+        if !s.viOpen then (db, "bad-op") else rbufOut db sid { s with viOpen := false } "ok"
+      | "vsetrev", [v] =>
+        match pNat v with
+        | some v =>
+          if s.viOpen ∨ v < s.vi.rev ∨ v ≥ 2 ^ 64 then (db, "bad-op")
+          else rbufOut db sid { s with vi := { s.vi with rev := v } } "ok"
+        | none => (db, "bad-op")
+      | "vread", [] =>
+        if !s.viOpen then (db, "bad-op") else rbufOut db sid s s!"ok {joinSp ((viRead s.vi).map toString)}"
+      | "vwrite", [side, d] =>
+        match sideIx side, pInt d with
+        | some i, some d =>
+          if !s.viOpen then (db, "bad-op") else
+          let cur := viRead s.vi
+          let ok := poolDelta i d cur != cur ∨ d = 0
+          rbufOut db sid { s with vi := viWrite s.vi (poolDelta i d) } (if ok then "ok" else "err")
+        | _, _ => (db, "bad-op")
       | "setrev", [v] =>
         match pNat v with
         | some v =>
           if s.isOpen ∨ v < s.m.rev ∨ v ≥ 2 ^ 64 then (db, "bad-op")
-          else rbufOut db sid ⟨{ s.m with rev := v }, false⟩ "ok"
+          else rbufOut db sid { s with m := { s.m with rev := v } } "ok"
         | none => (db, "bad-op")
       | "rpool", [k] =>
         match pNat k with
@@ -99,7 +192,7 @@ def rbufEngine (db : RbufDb) (args : List String) : RbufDb × String :=
         | _, _ => (db, "bad-op")
       | "rother", [] =>
         if !s.isOpen then (db, "bad-op")
-        else rbufOut db sid s s!"ok {joinSp ((read s.m 17).map toString)}"
+        else rbufOut db sid s s!"ok {joinSp (((read s.m 17).take 3).map toString)}"
       | "wpool", [k, side, d] =>
         match pNat k, sideIx side, pInt d with
         | some k, some i, some d =>
